@@ -143,7 +143,7 @@ pub fn reverse_cursor_write() {
         assert!(sl == pos, "C17: Reverse<Cursor>::space_left must equal the number of writes that will succeed");
         assert!(BoundedWriteWords::<u8>::is_full(&rc) == (pos == 0), "C17: Reverse<Cursor>::is_full wrong");
         let r = WriteWords::<u8>::write(&mut rc, w);
-        if pos == 0 { assert!(r.is_err() && rc.pos() == 0, "C17: write into a full reversed cursor must fail and not move"); }
+        if pos == 0 { assert!(r.is_err() && rc.pos() == 0, "C17/C09: write into a full reversed cursor must fail and not move (a coder on this backend must stay intact after a refused write)"); }
         else { assert!(r.is_ok() && rc.pos() == pos - 1, "C17: reversed write must move the cursor down by one"); }
     }
     let mut i = 0;
